@@ -61,6 +61,16 @@ Part B  `schedules`  real `dassh.__main__.run_dassh` on inputs with 1..4 time
         TIME (a single-time-point input with that power file, fresh process).
         `fresh2`: two fresh `python -m dassh` processes on one input give
         bit-identical dump files.
+        `rerun`: `python -m dassh <input>` executed twice (thorough: three
+        times) in the SAME directory, a fresh process each, for 1 and 2 time
+        points; `rerun-inproc`: `run_dassh` called as often in one interpreter
+        on the same parsed input and directory.  After every execution the set
+        of files and every file's bytes (timestamp line masked) must equal
+        those after the first execution.  `core2` requests every dump flag of
+        the template (coolant, duct, pins, gap, gap_fine, average, maximum,
+        pressure_drop; flowing gap, two duct meshes, FuelModel), `tables`
+        requests `all` + `interval`; the check fails itself when one of the
+        eight dump files was never written non-empty and compared in a rerun.
 
 Every piece of dassh code runs in a forked child (or subprocess) of a worker
 that itself never executes dassh: each reference, each sequence, each schedule
@@ -80,7 +90,7 @@ Flat scenario fields for known-finding matching: part, family, history
 Kinds: input-mutated / input-attr-mutated (site = mutated path, user-chosen
 names replaced by `*`), construction-failed, sweep-failed, postprocess-failed,
 orificing-step-failed (site = exception@file:function), model-differs, result-differs,
-postprocess-differs, files-differ, run-failed, directory-missing,
+postprocess-differs, files-differ, rerun-files-differ, run-failed, directory-missing,
 directory-unexpected, reference-failed, hang.
 """
 import hashlib
@@ -127,6 +137,12 @@ HOTSPOT = {'hs_cool': {'temperature': 'coolant', 'subfactors': 'fftf_clad_mw',
                        'input_sigma': 3, 'output_sigma': 2},
            'hs_clad': {'temperature': 'clad_mw', 'subfactors': 'crbr_fuel_clad_mw'},
            'hs_fuel': {'temperature': 'fuel_cl', 'subfactors': 'fftf_fuel_cl'}}
+DUMP_FLAGS = ['coolant', 'duct', 'pins', 'gap', 'gap_fine', 'average', 'maximum',
+              'pressure_drop']
+# the files these flags produce (no bypass gap in the enumerated bundles)
+DUMP_FILES = ['temp_coolant_int.csv', 'temp_duct_mw.csv', 'temp_pin.csv',
+              'temp_coolant_gap.csv', 'temp_coolant_gap_fine.csv', 'temp_average.csv',
+              'temp_maximum.csv', 'pressure_drop.csv']
 SHAPES = [('tilt', ['up', 'down']), ('asym', ['mid', 'up']),
           ('uniform', ['down', 'ends']), ('asym', ['cubic', 'flat'])]
 
@@ -180,7 +196,12 @@ def scenario(family, ntp, first_tp=0, parallel=None, n_cpu=None):
                              'axial_positions': [0.033, 0.1]},
                 'duct_tab': {'type': 'duct_mw', 'assemblies': [1],
                              'axial_positions': [0.05]}}})
-    elif family in ('core2', 'orif'):
+    elif family == 'core2':
+        # every dump file there is, flag by flag (`tables` uses `all` + interval),
+        # on a core with a flowing gap and two different duct meshes
+        setup['Dump'] = {k: True for k in DUMP_FLAGS}
+        kw['fuelmodel'] = dict(FUELMODEL)        # rows in temp_pin.csv
+    elif family == 'orif':
         setup['Dump'] = {'average': True, 'maximum': True, 'gap': True}
     d = S.design(2, pd=1.2, hd=30, oftf=0.03, **kw)
     tps = list(range(first_tp, first_tp + ntp))
@@ -1043,6 +1064,93 @@ def _process_run(c):
 QUICK_POOL = [(1, 2), (2, 2), (3, 1), (3, 3), (4, 2), (4, 4)]
 
 
+def _rerun_child(c):
+    """run_dassh several times in ONE interpreter on the same parsed input and
+    the same directory; -> file sets after every execution"""
+    import dassh.__main__ as M
+    out = {'snaps': [], 'fail': None}
+    with build(scenario(c['family'], c['ntp'])) as b:
+        inputs = _input_files(b.dir)
+        inp = b.inp()
+        for k in range(c['executions']):
+            try:
+                M.run_dassh(inp, dict(RX_ARGS))
+            except (KeyboardInterrupt, Hang):
+                raise
+            except BaseException as e:
+                out['fail'] = (k, type(e).__name__, str(e)[:200], site_of(e))
+                break
+            out['snaps'].append(collect(b.dir, b.dir, skip=inputs))
+    return out
+
+
+def _rerun_processes(c):
+    """python -m dassh <input> several times in the SAME directory, a fresh
+    process each; -> file sets after every execution"""
+    out = {'snaps': [], 'fail': None}
+    with build(scenario(c['family'], c['ntp'])) as b:
+        inputs = _input_files(b.dir)
+        for k in range(c['executions']):
+            f = _spawn(b.dir)
+            if f:
+                out['fail'] = (k,) + tuple(f)
+                break
+            out['snaps'].append(collect(b.dir, b.dir, skip=inputs))
+    return out
+
+
+def _run_rerun(c, r, desc, ex):
+    if c['mode'] == 'rerun':
+        out = _rerun_processes(c)
+    else:
+        out = _unwrap(in_child(_rerun_child, c), c, r, desc + ' (harness level)',
+                      'unexpected-exception')
+        if out is None:
+            r['outcome'] = 'EXC'
+            return r
+    ntp = c['ntp']
+    r['transitions'] += ntp * len(out['snaps'])
+    if out['fail']:
+        k, et, msg, site = out['fail']
+        r['violations'].append(violation(
+            'hang' if et == 'Hang' else 'run-failed', dict(c, execution=k + 1),
+            '%s: execution %d stopped with %s: %s' % (desc, k + 1, et, msg), et,
+            'every execution completes', None, site))
+    snaps = out['snaps']
+    if snaps:
+        want = ['timestep_%d/dassh.out' % (t + 1) for t in range(ntp)] if ntp > 1 \
+            else ['dassh.out']
+        miss = [w for w in want if w not in snaps[0]]
+        if miss:
+            r['violations'].append(violation(
+                'directory-missing', c, '%s: first execution left no %s' % (desc, miss),
+                sorted(snaps[0])[:8], want, None, 'timestep-dir'))
+        ex['rerun_files'] = {os.path.basename(k): 1 for k, v in snaps[0].items() if v}
+        ex['rerun_rows'] = sum(v.count(b'\n') for k, v in snaps[0].items()
+                               if k.endswith('.csv'))
+    for k in range(1, len(snaps)):
+        r['states'] += len(snaps[k])
+        fd = file_diff(snaps[0], snaps[k])
+        if fd:
+            name = fd[0].split(' line')[0]
+            extra = ''
+            if name in snaps[0] and name in snaps[k]:
+                extra = ' (%d bytes after execution 1, %d after execution %d)' % (
+                    len(snaps[0][name]), len(snaps[k][name]), k + 1)
+            r['violations'].append(violation(
+                'rerun-files-differ', dict(c, execution=k + 1),
+                '%s: files after execution %d differ from those after execution 1: %s%s'
+                % (desc, k + 1, fd[0], extra), fd[2], fd[1], None,
+                'file:' + os.path.basename(name)))
+            break
+    r['traces'] = len(snaps)
+    r['outcome'] = 'ok' if not r['violations'] else \
+        'violated:' + '+'.join(sorted({v['kind'] for v in r['violations']}))
+    r['info'] = {'files': sorted(snaps[0]) if snaps else [],
+                 'kinds': sorted({v['kind'] + '@' + str(v['site']) for v in r['violations']})}
+    return r
+
+
 def cases_schedules(tier):
     """family x 1..4 time points x {serial, every in-process task order, real
     Pool with n_cpu 1..4}; quick: the full worker grid for the first family,
@@ -1069,6 +1177,13 @@ def cases_schedules(tier):
                      'workers': 0, 'orderstr': '-'})
     slow.append({'part': 'schedules', 'family': 'tables', 'ntp': 2, 'mode': 'fresh2',
                  'workers': 0, 'orderstr': '-'})
+    nex = 2 if tier == 'quick' else 3
+    for fam in SCHEDULE_FAMILIES:
+        for n in (1, 2):
+            slow.append({'part': 'schedules', 'family': fam, 'ntp': n, 'mode': 'rerun',
+                         'workers': 0, 'orderstr': '-', 'executions': nex})
+            fast.append({'part': 'schedules', 'family': fam, 'ntp': n, 'mode': 'rerun-inproc',
+                         'workers': 0, 'orderstr': '-', 'executions': nex})
     return slow + fast
 
 
@@ -1077,6 +1192,10 @@ def run_schedule(c):
     fam, ntp, mode = c['family'], c['ntp'], c['mode']
     desc = '%s input, %d time point(s), %s' % (fam, ntp, {
         'serial': 'serial loop', 'fresh2': 'two fresh processes',
+        'rerun': '%s executions of python -m dassh in the same directory'
+                 % c.get('executions'),
+        'rerun-inproc': '%s calls of run_dassh on one parsed input in one interpreter, '
+                        'same directory' % c.get('executions'),
         'inproc': 'in-process pool, task order %s' % c.get('orderstr'),
         'pool': 'multiprocessing.Pool with n_cpu = %s' % c.get('workers')}[mode])
     r['key'] = '%s:%d:%s:%s:%s' % (fam, ntp, mode, c.get('workers'), c.get('orderstr'))
@@ -1084,6 +1203,8 @@ def run_schedule(c):
     ex = {'schedule_mode': {mode: 1}}
     r['extra'] = ex
     with CaseDir():
+        if mode in ('rerun', 'rerun-inproc'):
+            return _run_rerun(c, r, desc, ex)
         if mode == 'fresh2':
             a = _process_run(dict(c, mode='process'))
             b = _process_run(dict(c, mode='process'))
@@ -1189,7 +1310,8 @@ def main(run):
         'sequence with at least one of them; schedules: the six families without [Orificing] '
         'x 1..4 time points x {serial loop, '
         'every task order of the in-process pool (1+2+6+24), real Pool with n_cpu 1..4 via '
-        'python -m dassh} + two-fresh-processes runs; a case is non-trivial when the real '
+        'python -m dassh} + two-fresh-processes runs + repeated executions in the same '
+        'directory (fresh processes / one interpreter; 1 and 2 time points); a case is non-trivial when the real '
         'code executed it and its outputs were compared with a reference produced from a '
         'fresh input in a fresh process; distinct = (family, history) resp. (family, time '
         'points, mode, workers, order)' % (len(FAMILIES), depth))
@@ -1229,7 +1351,7 @@ def main(run):
     if not run.extra.get('constructions', {}).get('from-used-input'):
         vac('sequences', 'no successful construction from an already used input', {})
     modes = run.extra.get('schedule_mode', {})
-    for m in ('serial', 'inproc', 'pool', 'fresh2'):
+    for m in ('serial', 'inproc', 'pool', 'fresh2', 'rerun', 'rerun-inproc'):
         if not modes.get(m):
             vac('schedules', 'schedule mode %s never ran' % m, {'mode': m})
     n_orders = sum(1 for c in cb if c['mode'] == 'inproc' and c['ntp'] > 1)
@@ -1238,6 +1360,10 @@ def main(run):
             % (run.extra.get('pool_replaced_and_used', 0), n_orders), {})
     if not run.extra.get('dump_files_compared'):
         vac('schedules', 'no dump file was compared between two fresh processes', {})
+    for f in DUMP_FILES:
+        if not run.extra.get('rerun_files', {}).get(f):
+            vac('schedules', 'dump file %s never written (non-empty) and compared in a rerun' % f,
+                {'file': f})
     run.notes['distinct_input_states'] = len(states)
     run.notes['sequences'] = len(cs)
     run.notes['histories_checked_incl_prefixes'] = len(
